@@ -3,6 +3,7 @@ package props
 import (
 	"crypto/ed25519"
 	"fmt"
+	"sort"
 	"strings"
 	"time"
 
@@ -255,6 +256,49 @@ func c02DanglingVariant(c *core.C, tok *lib.Token, a ast.AuthContent, d *wire.De
 	c.Count("dangling_parent_"+string(po.Class), 1)
 	if po.Class != lib.OK && po.Class != lib.LIMIT && (co.Class == lib.OK || co.Second == lib.OK) {
 		c.Violate("attenuation-widened/raw-dangling-symbol-completed-by-child"+variant, fmt.Sprintf("parent with a dangling symbol index is refused (%s); appending a block that only declares the missing symbol makes it accepted", po.Class), desc)
+	}
+	// the same completion through the library's own derivations, used IN MEMORY (no round trip
+	// through bytes in between): a child appended by the library, and sealed copies of both children
+	forms := map[string]*biscuit.Biscuit{}
+	rng := lib.NewDetRand(c.Seed, fmt.Sprintf("c02-dang-rng-%d", c.Idx))
+	lib.Try(func() {
+		bb := pt.CreateBlock()
+		_ = bb.AddFact(ast.P("completes", ast.Str(target.Terms[pos].S)).LibFact())
+		if lc, err := pt.Append(rng, bb.Build()); err == nil {
+			forms["library-append-in-memory"] = lc
+			if sl, err := lc.Seal(rng); err == nil {
+				forms["library-append-then-seal-in-memory"] = sl
+			}
+		}
+		if sc, err := ct.Seal(rng); err == nil {
+			forms["seal-in-memory"] = sc
+		}
+	})
+	for _, fn := range []string{"library-append-in-memory", "library-append-then-seal-in-memory", "seal-in-memory"} {
+		b, ok := forms[fn]
+		if !ok {
+			continue
+		}
+		c.Eval(1)
+		fo := c02Observe(b, tok.Pub, a)
+		// a sealed copy authorizes exactly like the token it was sealed from (C09), hostile or not
+		if src, ok := map[string]string{"seal-in-memory": "", "library-append-then-seal-in-memory": "library-append-in-memory"}[fn]; ok {
+			so := co
+			if src != "" {
+				if sb, ok := forms[src]; ok {
+					so = c02Observe(sb, tok.Pub, a)
+				}
+			}
+			if fo.Class != so.Class && fo.Class != lib.LIMIT && so.Class != lib.LIMIT {
+				desc["derived_form"], desc["derived"], desc["sealed_from"] = fn, fo, so
+				c.Violate("sealing-changes-outcome/hostile-token/"+fn, fmt.Sprintf("the token it was sealed from gives %s, the sealed copy used in memory gives %s", so.Class, fo.Class), desc)
+			}
+		}
+		if po.Class != lib.OK && po.Class != lib.LIMIT && (fo.Class == lib.OK || fo.Second == lib.OK) {
+			desc["derived_form"], desc["derived"] = fn, fo
+			c.Violate("attenuation-widened/raw-dangling-symbol-completed-by-child"+variant+"/"+fn, fmt.Sprintf("parent with a dangling symbol index is refused (%s); the %s form of the completed token is accepted", po.Class, fn), desc)
+		}
+		c.Count("dangling_derived_forms", 1)
 	}
 	if po.Class != lib.OK {
 		c.NT(core.JSON(desc))
@@ -594,9 +638,31 @@ func c03SharedTerms(c *core.C) {
 	c.NT("shared-terms/" + core.JSON(desc["check_free_block"]) + whole.Key())
 }
 
+// shiftFailed renumbers the failed checks of a token that has one extra, check-free block at
+// position p so that they can be compared with the token without it.
+func shiftFailed(failed []string, p int) []string {
+	out := []string{}
+	for _, f := range failed {
+		var bi, ci int
+		if n, _ := fmt.Sscanf(f, "B%d:%d", &bi, &ci); n == 2 && bi > p {
+			f = fmt.Sprintf("B%d:%d", bi-1, ci)
+		}
+		out = append(out, f)
+	}
+	sort.Strings(out)
+	return out
+}
+
 func c03Run(c *core.C) {
 	r := c.R
 	c03SharedTerms(c)
+	// symbols are scoped like facts: a block cannot give a meaning to a symbol index that an
+	// earlier block left undefined, whichever way the token was derived (shared with C02)
+	if ds := gen.NewScenario(r, 2, scenOpts); true {
+		if dt, err := buildScenarioToken(c.Seed, fmt.Sprintf("c03-dang-%d", c.Idx), ds.Blocks); err == nil {
+			c02Dangling(c, dt, ds.Auth)
+		}
+	}
 	for rep := 0; rep < 4; rep++ {
 		s := gen.NewScenario(r, 3, scenOpts)
 		a := s.Auth
@@ -659,6 +725,10 @@ func c03Run(c *core.C) {
 				}
 				if with.Class != without.Class {
 					c.Violate("check-free-block-changes-outcome", fmt.Sprintf("outcome %s without the block, %s with it (position %d)", without.Class, with.Class, p), desc)
+				} else if wf := shiftFailed(with.Failed, p); strings.Join(wf, ",") != strings.Join(without.Failed, ",") {
+					// the outcome of every single check is the same with and without the block: the
+					// checks named as failed are the same ones (block numbers above the insert position shifted back)
+					c.Violate("check-free-block-changes-failed-checks", fmt.Sprintf("checks reported as failed without the block: %v, with it at position %d: %v", without.Failed, p, with.Failed), desc)
 				} else if core.JSON(with.Queries) != core.JSON(without.Queries) {
 					c.Violate("check-free-block-changes-query-results", fmt.Sprintf("authorizer query results differ with a check-free block at position %d", p), desc)
 				}
